@@ -14,6 +14,8 @@ pub enum ROut { Cont, Disable, Err, Panic }
 pub struct Shared {
     pub gate: Semaphore,
     pub waiting: AtomicBool,
+    /// on_stop has been entered (generator steering only)
+    pub in_stop: AtomicBool,
     pub start_out: SOut,
     pub stop_out: SOut,
     pub run_outs: Vec<ROut>,
@@ -91,6 +93,7 @@ impl Actor for ScriptActor {
 
     async fn on_stop(&mut self, _w: &ActorWeak<Self>, killed: bool) -> Result<(), ErrSrc> {
         log::actor(format!("stopStart killed={killed}"));
+        self.sh.in_stop.store(true, Ordering::SeqCst);
         gate_wait(&self.sh).await;
         self.hooks.push(format!("stop:{killed}"));
         match self.sh.stop_out {
@@ -193,6 +196,7 @@ pub fn parse_spawn(ws: &[&str]) -> Option<(usize, Shared)> {
     let mut sh = Shared {
         gate: Semaphore::new(0),
         waiting: AtomicBool::new(false),
+        in_stop: AtomicBool::new(false),
         start_out: SOut::Ok,
         stop_out: SOut::Ok,
         run_outs: vec![],
